@@ -6,14 +6,14 @@ cd "$ROOT"; export VERIF_ROOT="$ROOT"; . ./env.sh
 for d in seeded/*/; do
   id=$(basename "$d")
   checks=$(python3 -c "import json;print(' '.join(json.load(open('$d/meta.json'))['checks']))")
-  if ! git -C "$VERIF_REPO" apply --check "$d/patch.diff" 2>/dev/null; then echo "$id: PATCH-DOES-NOT-APPLY"; continue; fi
-  git -C "$VERIF_REPO" apply "$d/patch.diff"
+  if ! git -C "$VERIF_REPO" apply --check "$ROOT/${d}patch.diff" 2>/dev/null; then echo "$id: PATCH-DOES-NOT-APPLY"; continue; fi
+  git -C "$VERIF_REPO" apply "$ROOT/${d}patch.diff"
   res=""
   for c in $checks; do
     out=$(./check $c 2>&1); rc=$?
     res="$res $c=$rc"
   done
-  git -C "$VERIF_REPO" apply -R "$d/patch.diff"
+  git -C "$VERIF_REPO" apply -R "$ROOT/${d}patch.diff"
   caught=no; case "$res" in *=1*) caught=yes;; esac
   echo "$id: caught=$caught ($res )"
 done
